@@ -18,7 +18,7 @@ TOL_DG = 1e-7           # G(n) - G(n*) per mole of mixture, relative to max(1, s
 TOL_KKT = 1e-3          # |mu_i - sum lam a_i| for non-trace species
 TOL_AMOUNT = 1e-3       # relative agreement of non-trace amounts with the reference optimum
 TRACE = 1e-3            # "present in non-trace amounts": equilibrium mole fraction above 1e-3
-DEEP_TRACE = 1e-12      # known finding C16-deep-trace: see TRIGGERS
+DEEP_TRACE = 1e-6       # known finding C16-deep-trace: see TRIGGERS (stalls seen up to 6.5e-10; none in 15.7k solves above 1e-6)
 
 
 def g_of(d, T):
@@ -41,7 +41,7 @@ class WorldC16(World):
     SIMULATED = ('solver outcome policy at the pmutt.equilibrium._equilibrium.minimize seam (pass, iteration cap, early stop, raise)',
                  'disk under from_thermdat (SimFS read faults)', 'clients reusing one Equilibrium object over many (T, P)')
     TRIGGERS = {
-        'C16-deep-trace': 'the true equilibrium composition contains a species below 1e-12 mole fraction '
+        'C16-deep-trace': 'the true equilibrium composition contains a species below 1e-6 mole fraction '
                           '(SLSQP can then stall with that species pinned at its lower bound and still report success)',
     }
     ASSUMPTIONS = ('the reference optimum comes from an independent element-potential Newton solver whose own KKT residual is '
